@@ -20,8 +20,50 @@ def _coll(gens, n=None, routes=None):
     return get_pauli_string(list(gens), n=n)
 
 
-def classify(gens, n=None, record=False, routes=None):
+class attach_trace:
+    """while active, notes for every vertex the plain MorphFactory attaches which step of the pipeline attached it
+    (harness-side observation of the call site; /repo is not touched): text of the vertex -> name of the function that
+    called append(), with append_to_center (the only caller that runs the dependency test first) resolved to
+    '<its caller>+checked'"""
+    def __init__(self):
+        self.log = {}
+    def __enter__(self):
+        import sys
+        from paulie.classifier import morph_factory as mf
+        self.mf = mf
+        self.orig = mf.MorphFactory.append
+        log = self.log
+        orig = self.orig
+        def append(this, v, lit):
+            f = sys._getframe(1)
+            site = f.f_code.co_name
+            if site == "append_to_center" and f.f_back is not None:
+                site = f.f_back.f_code.co_name + "+checked"
+            log[str(v)] = "%d:%s" % (len(log), site)      # order of attachment : step
+            return orig(this, v, lit)
+        mf.MorphFactory.append = append
+        self.orig_replace = mf.MorphFactory.replace
+        orig_replace = self.orig_replace
+        def replace(this, v, v_new):
+            # an equivalent vertex takes the place of v: it inherits the step that attached v
+            if str(v) in log:
+                log[str(v_new)] = log[str(v)] + ">" + sys._getframe(1).f_code.co_name
+            return orig_replace(this, v, v_new)
+        mf.MorphFactory.replace = replace
+        return self
+    def __exit__(self, *a):
+        self.mf.MorphFactory.append = self.orig
+        self.mf.MorphFactory.replace = self.orig_replace
+        return False
+
+
+def classify(gens, n=None, record=False, routes=None, trace=False):
     """Everything the classification of a collection exposes, as text."""
+    if trace and not record:
+        with attach_trace() as t:
+            out, c, rec = classify(gens, n, record, routes)
+        out["attach_sites"] = t.log
+        return out, c, rec
     c = _coll(gens, n, routes)
     rec = None
     if record:
@@ -125,10 +167,14 @@ def classify_history(gens, steps, orders=None):
     queries at stage i"""
     c = _coll(gens)
     orders = orders or [None] * (len(steps) + 1)
-    out = [read_class(c, orders[0])]
-    for i, st in enumerate(steps):
-        apply_step(c, st)
-        out.append(read_class(c, orders[i + 1]))
+    with attach_trace() as t:
+        out = [read_class(c, orders[0])]
+        out[-1]["attach_sites"] = dict(t.log)
+        for i, st in enumerate(steps):
+            apply_step(c, st)
+            t.log.clear()
+            out.append(read_class(c, orders[i + 1]))
+            out[-1]["attach_sites"] = dict(t.log)
     return out
 
 
